@@ -10,3 +10,18 @@ s = s.replace("#[kani::unwind(5)]", "#[kani::unwind(6)]").replace('bound="len <=
 s = re.sub(r' inputs=[\w,]+ scenario="[^"]*"', '', s)
 s = s.replace("// ConIterOfVec: memory effects", "// DERIVED from kani/vec.rs by tools/mk_thorough.py (thorough tier: vectors up to length 4).  ConIterOfVec: memory effects")
 open(os.path.join(d, 'kani/vec_n4.rs'), 'w').write(s)
+
+# kani/seq_s4.rs = the no-wrap sequential-cursor harnesses of kani/seq.rs with FOUR symbolic operations instead of three
+q = open(os.path.join(d, 'kani/seq.rs')).read()
+q = q.replace("mod vk_seq {", "mod vk_seq_s4 {")
+# drop the full-domain variants (their known finding W is identified by the quick harnesses' names) and everything from constructors_into on
+q = re.sub(r"    // @harness name=seq_(slice|range)_fulldomain [^\n]*\n    #\[kani::proof\]\n    #\[kani::unwind\(\d+\)\]\n    fn seq_\1_fulldomain\(\) \{[^\n]*\}\n", "", q)
+j = q.index("    // @harness name=constructors_into")
+j = q.rfind("\n\n", 0, j)
+q = q[:j] + "\n}\n"
+q = q.replace("while step < 3 {", "while step < 4 {")
+q = re.sub(r"name=seq_(slice|range)_nowrap group=default,nodebug props_nodebug=C17 ", r"name=seq_\1_nowrap_s4 tier=thorough ", q)
+q = re.sub(r"fn seq_(slice|range)_nowrap\(\)", r"fn seq_\1_nowrap_s4()", q)
+q = q.replace("three symbolic operations", "four symbolic operations").replace("#[kani::unwind(6)]", "#[kani::unwind(7)]").replace("#[kani::unwind(5)]", "#[kani::unwind(6)]")
+assert q.count("tier=thorough") == 2 and q.count("while step < 4 {") == 2 and "fulldomain()" not in q
+open(os.path.join(d, 'kani/seq_s4.rs'), 'w').write("// DERIVED from kani/seq.rs by tools/mk_thorough.py (thorough tier: four operations per history).\n" + q)
